@@ -16,3 +16,5 @@ Definition ix_saturating_sub (a b : Z) : Z := if a <? b then 0 else a - b.
 Definition u_count_zeros (w x : Z) : Z := w - u_count_ones x.
 (* u32::checked_sub *)
 Definition ix_checked_sub (a b : Z) : option Z := if a <? b then None else Some (a - b).
+(* `i << s` on usize in index arithmetic (`i << BIT_SHIFT`): like `+`, never assumed to overflow *)
+Definition ix_shl (x s : Z) : Z := Z.shiftl x s.
